@@ -519,6 +519,7 @@ HEADER = '''// GENERATED by /verif/tools/extract.py from /repo's working tree - 
 // unit: %(unit)s   (cfg(feature = ..) resolved for the feature set recorded in the .map.json)
 #![allow(unused_imports, unused_variables, unused_mut, dead_code, unused_parens, non_snake_case)]
 #![feature(allocator_api)]
+#![feature(pattern)]
 use vstd::prelude::*;
 use std::sync::Arc;
 verus! {
@@ -641,15 +642,18 @@ def unit_rewrites(ud, rel, s, rw):
         s = t8_f64_consts(s, rw)
     if rel.endswith('/mod.rs') and part == 'glue':
         # T19: `expr.split_whitespace().collect::<String>()` -> helper with an assumed contract (body = the original expression)
-        n0 = s.count('expr.split_whitespace().collect::<String>()') + s.count('expr.split_ascii_whitespace().collect::<String>()')
+        # (tolerant of rustfmt breaking the method chain over several lines)
+        pat_ws = r'expr\s*\.split_whitespace\(\)\s*\.collect::<String>\(\)'
+        pat_aws = r'expr\s*\.split_ascii_whitespace\(\)\s*\.collect::<String>\(\)'
+        n0 = len(re.findall(pat_ws, s)) + len(re.findall(pat_aws, s))
         if n0 != 1:
             raise LostAnchor("T19: expected one whitespace-stripping idiom `expr.split_[ascii_]whitespace().collect::<String>()`, found %d" % n0)
-        s = rw.literal('T19', s, 'expr.split_whitespace().collect::<String>()', 'verif_strip_ws(&expr)')
-        s = rw.literal('T19', s, 'expr.split_ascii_whitespace().collect::<String>()', 'verif_strip_ascii_ws(&expr)')
+        s = rw.regex('T19', s, pat_ws, 'verif_strip_ws(&expr)')
+        s = rw.regex('T19', s, pat_aws, 'verif_strip_ascii_ws(&expr)')
     if rel.endswith('/tokenizer.rs') or rel.endswith('deserialize_superscript_number.rs'):
         # T10: the two adapter-chain idioms -> helpers with assumed contracts (bodies are the original expressions)
-        s = rw.regex('T10', s, r'self\.expr\.clone\(\)\.take\((\d+)\)\.collect::<String>\(\)', r'verif_peek_str(&self.expr, \1)')
-        s = rw.regex('T10', s, r'self\.expr\.by_ref\(\)\.take\((\d+)\)\.for_each\(drop\)', r'verif_skip(&mut self.expr, \1)')
+        s = rw.regex('T10', s, r'self\s*\.expr\s*\.clone\(\)\s*\.take\((\d+)\)\s*\.collect::<String>\(\)', r'verif_peek_str(&self.expr, \1)')
+        s = rw.regex('T10', s, r'self\s*\.expr\s*\.by_ref\(\)\s*\.take\((\d+)\)\s*\.for_each\(drop\)', r'verif_skip(&mut self.expr, \1)')
         # T25: keyword comparisons (after T10)
         s = t25_keyword_tests(s, rw)
         # T18: char / &str -> String conversions without a vstd spec -> helpers with assumed contracts (bodies = the original calls)
